@@ -31,6 +31,10 @@ def run(patch):
             r = subprocess.run(["/venv/bin/python", demo], cwd=d, capture_output=True, text=True, timeout=300)
             return f"demo exit {r.returncode} ({stats})"
         chk = os.path.join(os.path.dirname(os.path.abspath(patch)), "check.py") if patch else None
+        if chk and not os.path.exists(chk):
+            import glob as _g
+            alt = _g.glob(os.path.join(os.path.dirname(os.path.abspath(patch)), "r*_check.py"))  # (two scripts assert on their own file name)
+            chk = alt[0] if alt else chk
         extra = ""
         if chk and os.path.exists(chk) and os.environ.get("CHECK"):
             # benign refactoring: its author's check script must still pass on the canonical form
